@@ -162,6 +162,9 @@ static void child_run(void *a_)
         }
         if (a->ev->ev == EV_AUTH_TYPE) must = 1;
         if (a->ev->ev == EV_AUTH_ALERT && a->ev->arg == 2 && T->nAlertIn == alertsBefore) must = 1;
+        /* A TLS 1.3 server that rejected the offered early data skips records it cannot deprotect until the client's handshake flight arrives
+           (RFC 8446 4.2.10): a record sealed under the client's early-data key is such a record, whatever it contains. */
+        if (must && k->cfg.ver == MX_TLS13 && T->role == MX_SERVER && T->ssl->tls13EarlyDataStatus == MATRIXSSL_EARLY_DATA_REJECTED && !matrixSslHandshakeIsComplete(T->ssl)) { must = 0; vf_stat("authentic_events_in_early_data_skip_mode_not_judged", 1); }
         if (must) report("protocol-error-not-fatal", T, "an authentic but illegal record (event arg %d/%d) was not treated as a fatal error: rc=%d alertBytes=%d", a->ev->arg, a->ev->arg2, rcEvent, alertBytes);
     }
     if (!recognised) { vf_stat("event_not_recognised_as_error", 1); vf_statf(1, "unrecognised_%s_%s", evname[a->ev->ev], dtls ? "dtls" : "tls"); return; }
